@@ -77,6 +77,7 @@ NavForest(p, n, f) ==
 AttrMenu == << <<>>, <<A("name", "string", 0)>>, <<A("line", "data1", 0)>>,
                <<A("name", "string", 0), A("decl", "flag_present", 0), A("sibling", "ref4", 0)>>,
                <<A("type", "ref4", 0), A("line", "data1", 0)>> >>
+AttrTags == <<"sub", "callsite", "var", "gnucallsite", "inl", "st">>
 RefChoices(n) ==
     {g \in [2..n -> [spec: 0..n, orig: 0..n, first: {"spec", "orig"}, m: 1..Len(AttrMenu)]] :
         /\ \A d \in 2..n : (g[d].spec = 0 \/ g[d].spec > d) /\ (g[d].orig = 0 \/ g[d].orig > d)
@@ -93,7 +94,9 @@ AttrForest(n, g) ==
                          refs == IF g[d].first = "spec" THEN sp \o og ELSE og \o sp
                          \* DW_AT_sibling must point to the next sibling: the last child cannot have one
                          own == IF d = n /\ g[d].m = 4 THEN AttrMenu[2] ELSE AttrMenu[g[d].m]
-                     IN [tag |-> "sub", kids |-> <<>>, attrs |-> refs \o own, hc |-> FALSE]]]
+                     \* (integration does not ask what kind of DIE it is looking at: call sites, inlined
+                     \* subroutines, variables, types, subprograms by turns)
+                     IN [tag |-> AttrTags[((d + n) % Len(AttrTags)) + 1], kids |-> <<>>, attrs |-> refs \o own, hc |-> FALSE]]]
 
 \* The same with a dwz alt file (.gnu_debugaltlink): the units marked file = 1 are stored in a second ELF file,
 \* references into it use DW_FORM_GNU_ref_alt, and its offsets start again from 0 -- the DIEs of the two files
@@ -174,6 +177,11 @@ ForestSet ==
       [] Family = "altnav" -> UNION {{AltNavForest(p, N, f) : f \in ImpChoices(p, N)} : p \in {q \in ParVecs(N) : Cardinality(RangeOf(RootsOf(q, N))) \in 2..3}}
       [] Family = "altattr" -> UNION {{AltAttrForest(N, g, s) : g \in AltRefChoices(N, s)} : s \in 2..(N - 2)}
       [] Family = "raw" -> {RawForest(p, N) : p \in ParVecs(N)}
+      \* nesting far deeper than a compiler produces: one chain of N DIEs, the same with a leaf next to every
+      \* link, and two units of half the depth
+      [] Family = "rawdeep" -> {RawForest([i \in 1..N |-> i - 1], N),
+                                RawForest([i \in 1..N |-> IF i = 1 THEN 0 ELSE IF i % 2 = 0 THEN (IF i = 2 THEN 1 ELSE i - 2) ELSE i - 1], N),
+                                RawForest([i \in 1..N |-> IF i = 1 \/ i = N \div 2 + 1 THEN 0 ELSE i - 1], N)}
       [] Family = "nav" -> UNION {{NavForest(p, N, f) : f \in ImpChoices(p, N)} : p \in {q \in ParVecs(N) : Cardinality(RangeOf(RootsOf(q, N))) \in 2..3}}
       [] Family = "attr" -> {AttrForest(N, g) : g \in RefChoices(N)}
 
@@ -192,8 +200,25 @@ Expect(F) ==
      cooked_attrs |-> [d \in 1..Len(F.die) |-> [j \in 1..Len(CookedAttrs(F, d)) |-> [n |-> CookedAttrs(F, d)[j].a.n, of |-> CookedAttrs(F, d)[j].of]]],
      ok |-> [raw |-> RawOK(F), nav |-> NavOK(F), attr |-> AttrOK(F)]]
 
+\* the same record for a forest without imports and references, where the cooked view is the raw one (the deep
+\* forests: the cooked mechanism walk of Dwarf.tla carries import chains around and is too slow for them)
+UnitRootOf(F, d) == LET RECURSIVE Up(_) Up(x) == IF RawParent(F, x) = 0 THEN x ELSE Up(RawParent(F, x)) IN Up(d)
+ExpectRaw(F) ==
+    LET pre == RawPreorder(F) IN
+    [forest |-> [units |-> F.units, die |-> [i \in 1..Len(F.die) |-> F.die[i]]],
+     raw_preorder |-> pre,
+     raw_parent |-> [i \in 1..Len(F.die) |-> RawParent(F, i)],
+     unit_dies |-> [i \in 1..Len(F.units) |-> UnitDies(F, i)],
+     cooked_entries |-> [i \in 1..Len(pre) |-> [d |-> pre[i], ch |-> <<>>]],
+     cooked_kids |-> [i \in 1..Len(pre) |-> [j \in 1..Len(F.die[pre[i]].kids) |-> [d |-> F.die[pre[i]].kids[j], ch |-> <<>>]]],
+     cooked_parent |-> [i \in 1..Len(pre) |-> IF RawParent(F, pre[i]) = 0 THEN <<>> ELSE <<[d |-> RawParent(F, pre[i]), ch |-> <<>>]>>],
+     cooked_root |-> [i \in 1..Len(pre) |-> [d |-> UnitRootOf(F, pre[i]), ch |-> <<>>]],
+     cooked_units |-> CookedUnits(F),
+     cooked_attrs |-> [d \in 1..Len(F.die) |-> [j \in 1..Len(F.die[d].attrs) |-> [n |-> F.die[d].attrs[j].n, of |-> d]]],
+     ok |-> [raw |-> RawOK(F), nav |-> TRUE, attr |-> TRUE]]
+
 All == SetToSeq(ForestSet)
 Mine == SelectSeq([j \in 1..Len(All) |-> [j |-> j, f |-> All[j]]], LAMBDA r: r.j % NShards = Shard)
-ASSUME /\ ndJsonSerialize(OutFile, [j \in 1..Len(Mine) |-> Expect(Mine[j].f)])
+ASSUME /\ ndJsonSerialize(OutFile, [j \in 1..Len(Mine) |-> IF Family = "rawdeep" THEN ExpectRaw(Mine[j].f) ELSE Expect(Mine[j].f)])
        /\ PrintT(<<"FORESTS", Len(All), Len(Mine)>>)
 =============================================================================
